@@ -146,6 +146,20 @@ CLAIMS = {
              "equal a fresh server's: that equality is observed only on the bounded histories (24 histories, 9 files).",
         technique="freshness/frame obligations over the AST and call graph (pyvc mode E); native history replay as bounded stand-in",
         design="3/C10"),
+    "C04": dict(
+        text="Structure layer: the constructor/END-regex pairing of FortranFile.parse read from the AST and the keyword x "
+             "regex acceptance table (exhaustive with the real re) match the standard's table; sline/eline come from the "
+             "opening line and the END that pops the scope (stack discipline: invariant VCs of C03); find_in_workspace and "
+             "its helper are proved (VCs with fold specifications over immutable object references) to return exactly the "
+             "file-backed tops and module members whose lower-cased name contains the lower-cased query, pseudo scopes "
+             "excluded, nothing dropped or duplicated; symbol construction, -1 line offsets and the sort key are structural "
+             "obligations. Generated nested programs (outline + workspace/symbol vs the generator's expectation) are the "
+             "bounded stand-in.",
+        note="That each statement regex recognises exactly its Fortran statement is not decided (needs a grammar); "
+             "numeric SymbolKind values are checked only by the generated-program stand-in; PROGRAM members count as module "
+             "members (pinned by the repository's own test).",
+        technique="finite tables from the AST + real re; VCs (pyvc mode F) with fold specifications; generated programs as bounded stand-in",
+        design="3/C04"),
 }
 
 NOT_APPLICABLE = {
